@@ -19,6 +19,7 @@ FORGERIES = [
     "other_password", "other_engine_localised", "other_user_signed", "other_user_field",
     "priv_cleared_old_digest", "priv_cleared_wrongkey_digest", "priv_cleared_no_auth",
     "auth_cleared_cipher_malleated", "auth_cleared_cipher_malleated_digest_kept", "auth_cleared_plain", "auth_cleared_attacker_octets",
+    "priv_flag_kept_plaintext_signed_by_auth_key_holder",
     "report_known_oid", "report_unknown_oid", "report_response_bindings", "report_authflag_baddigest",
     "report_empty_bindings", "response_as_report_tag",
 ]
@@ -39,7 +40,8 @@ RULE = ("For every scenario (hash x level x operation x database; quick: 2x2x{ge
         "exactly the authentic result; for Reports only an exception. Non-trivial: a twin in which the transformed datagram "
         "was delivered; distinct = distinct (scenario, transformation)." % (CHUNK, len(FORGERIES)))
 ASSUMPTIONS = [
-    "the attacker does not know the user's keys (it cannot produce a valid digest over altered content)",
+    "the attacker does not know the user's keys (it cannot produce a valid digest over altered content); one forgery is "
+    "made by a holder of the authentication key only (plaintext under msgFlags auth|priv for a privacy user)",
     "bit flips that the client tolerates and that leave the result identical to the authentic one are allowed by the property",
     "replaying an authentic response to a different request is not among the property's attacker actions and is not generated",
 ]
@@ -263,6 +265,13 @@ def _forge(name: str, plan: dict, raw: bytes, agent: Any) -> Optional[bytes]:
         if name == "priv_cleared_wrongkey_digest":
             return signed(1, wrong_key, scoped)
         return build(0, b"", scoped)
+    if name == "priv_flag_kept_plaintext_signed_by_auth_key_holder":
+        # the two pass-phrases are independent secrets: a forger (or a middle box) holding only the AUTHENTICATION key
+        # sends plaintext under msgFlags auth|priv with a correct digest - a privacy user must not accept plaintext
+        if level != 3:
+            return None
+        right_key = U.localised_key(sc["hash"], plan["auth_pass"], sec["engine_id"])
+        return signed(3, right_key, scoped, sec["priv"])
     if name.startswith("auth_cleared"):
         # privacy users: only the authentication flag is cleared (msgFlags 0x02, an invalid level an attacker can still send)
         if level != 3 or msg["encrypted"] is None:
